@@ -77,6 +77,55 @@ theorem ga_forUp_inv {σ τ : Type} (e : τ → σ) (g : τ → Nat → τ) (Inv
     simp only [forUp, h0]
     exact ih (lo+1) (g t lo) hI' (fun j t' h1 h2 hj => h j t' (by omega) (by omega) hj)
 
+theorem ga_foldl_append {α : Type} (v : Nat → List α) (l : List Nat) (acc : List α) :
+    l.foldl (fun a j => a ++ v j) acc = acc ++ l.flatMap v := by
+  induction l generalizing acc with
+  | nil => simp
+  | cons x xs ih => simp [List.foldl_cons, ih, List.flatMap_cons, List.append_assoc]
+
+/-- a `for j in 0..k { list.push(val j) }` loop -/
+theorem ga_forUp_push (f : Nat → List Nat → R (Ctl (List Nat))) (val : Nat → Nat) (k : Nat) (l : List Nat)
+    (h : ∀ j l, j < k → f j l = .ok (.next (l ++ [val j]))) :
+    forUp 0 k l f = .ok (l ++ (List.range k).map val) := by
+  have := ga_forUp_eq' id (fun (l : List Nat) j => l ++ [val j]) f k 0 l (fun j t _ h2 => h j t (by omega))
+  simp only [id] at this
+  have hs : ∀ xs : List Nat, xs.flatMap (fun j => [val j]) = xs.map val := by
+    intro xs
+    induction xs with
+    | nil => rfl
+    | cons x xs ih => simp [List.flatMap_cons, ih]
+  rw [this, ga_foldl_append (fun j => [val j]), List.range_eq_range', hs]
+
+/-- a loop whose body appends a whole list per iteration -/
+theorem ga_forUp_push_list (f : Nat → List Nat → R (Ctl (List Nat))) (val : Nat → List Nat) (k : Nat) (l : List Nat)
+    (h : ∀ j l, j < k → f j l = .ok (.next (l ++ val j))) :
+    forUp 0 k l f = .ok (l ++ (List.range k).flatMap val) := by
+  have := ga_forUp_eq' id (fun (l : List Nat) j => l ++ val j) f k 0 l (fun j t _ h2 => h j t (by omega))
+  simp only [id] at this
+  rw [this, ga_foldl_append val, List.range_eq_range']
+
+/-- a `while` loop that walks through the states `st 0, st 1, …, st m` and leaves at `st m` -/
+theorem ga_whileFuel_seq {σ : Type} (f : σ → R (Ctl σ)) (st : Nat → σ) (m : Nat)
+    (hstep : ∀ j, j < m → f (st j) = .ok (.next (st (j+1)))) (hend : f (st m) = .ok (.brk (st m))) :
+    ∀ (d j fuel : Nat), j + d = m → d < fuel → whileFuel fuel (st j) f = .ok (st m) := by
+  intro d
+  induction d with
+  | zero =>
+    intro j fuel hj hf
+    obtain ⟨f', rfl⟩ : ∃ f', fuel = f' + 1 := ⟨fuel - 1, by omega⟩
+    have : j = m := by omega
+    subst this
+    simp [whileFuel, hend, pure, Except.pure]
+  | succ d ih =>
+    intro j fuel hj hf
+    obtain ⟨f', rfl⟩ : ∃ f', fuel = f' + 1 := ⟨fuel - 1, by omega⟩
+    simp only [whileFuel, hstep j (by omega)]
+    exact ih (j + 1) f' (by omega) (by omega)
+
+theorem ga_succ_mul_le {k ob ib : Nat} (hk : k < ob) : k * ib + ib ≤ ob * ib := by
+  have := Nat.mul_le_mul_right ib (Nat.succ_le_of_lt hk)
+  rwa [Nat.succ_mul] at this
+
 /-! ### checked primitives -/
 
 theorem ga_ckAdd {a b : Nat} (h : a + b < 2^64) : ckAdd a b = .ok (a + b) := by
